@@ -220,9 +220,13 @@ class Check:
             return None
         return model
 
-    def diff(self, ops_file, impl_file, model_file, stateful=False, hbin=None, exe=None, exe_args=None, max_report=8):
+    def diff(self, ops_file, impl_file, model_file, stateful=False, hbin=None, exe=None, exe_args=None, max_report=8,
+             prefer_property=False):
         """line-by-line comparison. Pure (stateless) streams: a differing line is its own minimal case.
-        Stateful streams are split into cases by '# case' comment lines and shrunk by delta debugging."""
+        Stateful streams are split into cases by '# case' comment lines and shrunk by delta debugging.
+        prefer_property (stateful only): when a case contains a property-op failure on the implementation (FAIL/panic)
+        after an earlier plain mismatch, cut the case after the failure and shrink towards the failure, so that the
+        report carries a concrete failing input instead of `no-failing-input-found`."""
         ops = open(ops_file).read().splitlines()
         impl = open(impl_file).read().splitlines()
         model = open(model_file).read().splitlines()
@@ -276,10 +280,16 @@ class Check:
                 continue
             reported += 1
             first = idx[0]
+            only_prop = False
+            if prefer_property:
+                pf = [i for i in idx if impl[i].startswith("FAIL") or impl[i].startswith("panic")]
+                if pf:
+                    first = pf[0]
+                    only_prop = True
             case_ops = [o for o in ops[a:first + 1] if not o.startswith("#")]
             shrunk = case_ops
             if hbin and exe:
-                shrunk = self.shrink(case_ops, hbin, exe, exe_args)
+                shrunk = self.shrink(case_ops, hbin, exe, exe_args, only_prop=only_prop)
             isprop, det = self.classify_case(shrunk, hbin, exe, exe_args) if hbin and exe else (impl[first].startswith("FAIL") or impl[first].startswith("panic"), f"impl: {impl[first]} | model: {model[first]}")
             self.problems.append(Problem("property" if isprop else "correspondence",
                                          "property oracle fails on the implementation" if isprop else "model and implementation disagree",
@@ -302,11 +312,13 @@ class Check:
             return None
         return open(impl).read().splitlines(), open(m).read().splitlines()
 
-    def _fails(self, case_ops, hbin, exe, exe_args):
+    def _fails(self, case_ops, hbin, exe, exe_args, only_prop=False):
         r = self._run_case(case_ops, hbin, exe, exe_args)
         if r is None:
             return False
         impl, model = r
+        if only_prop:
+            return any(a.startswith("FAIL") or a.startswith("panic") for a in impl)
         if len(impl) != len(model):
             return True
         return any((a != b or a.startswith("FAIL") or a.startswith("panic")) for a, b in zip(impl, model))
@@ -324,10 +336,10 @@ class Check:
                 return False, f"line {i}: impl: {a} | model: {b}"
         return False, "not reproducible on re-run"
 
-    def shrink(self, case_ops, hbin, exe, exe_args, budget=150):
+    def shrink(self, case_ops, hbin, exe, exe_args, budget=150, only_prop=False):
         """ddmin over op lines (each candidate re-executed on implementation and model from a fresh state)"""
         cur = list(case_ops)
-        if not self._fails(cur, hbin, exe, exe_args):
+        if not self._fails(cur, hbin, exe, exe_args, only_prop):
             return cur
         n = 2
         runs = 0
@@ -337,7 +349,7 @@ class Check:
             for s in range(0, len(cur), chunk):
                 cand = cur[:s] + cur[s + chunk:]
                 runs += 1
-                if cand and self._fails(cand, hbin, exe, exe_args):
+                if cand and self._fails(cand, hbin, exe, exe_args, only_prop):
                     cur = cand
                     n = max(n - 1, 2)
                     reduced = True
